@@ -82,10 +82,18 @@ def remove_case_dir(files: Dict[int, str]) -> None:
         break
 
 
-def load(files: Dict[int, str], include_last: bool = False, mp: bool = False):
-    """TraceAnalysis-equivalent load, with control over multiprocessing."""
+def load(files: Dict[int, str], include_last: bool = False, mp: bool = False, ctor: Optional[str] = None):
+    """TraceAnalysis-equivalent load, with control over multiprocessing. `ctor`: "dir" / "list" go through the real
+    TraceAnalysis constructor with only the directory, or with a list of file names (the ranks are then discovered from
+    the files' metadata); default: a rank -> file dictionary and an explicit load."""
     hta_setup()
     from hta.trace_analysis import TraceAnalysis
+    d = os.path.dirname(next(iter(files.values())))
+    if ctor == "dir":
+        return TraceAnalysis(trace_dir=d, include_last_profiler_step=include_last)
+    if ctor == "list":
+        names = [os.path.basename(p) if i % 2 == 0 else p for i, p in enumerate(files[r] for r in sorted(files))]
+        return TraceAnalysis(trace_files=names, trace_dir=d, include_last_profiler_step=include_last)
     ta = TraceAnalysis.__new__(TraceAnalysis)
     from hta.common.trace import Trace
     ta.t = Trace(trace_files=dict(files), trace_dir=os.path.dirname(next(iter(files.values()))))
